@@ -226,6 +226,14 @@ theorem C04_equal_iff (m : Mem) (a b : View) (eq : Nat → Nat → Bool) (hw : a
     · exact Nat.mod_lt _ hw0
     · exact Nat.div_lt_of_lt_mul hi
 
+/-- image equality (operator==): true exactly when the dimensions agree and all corresponding pixels compare equal -/
+theorem C04_image_eq_iff (m : Mem) (a b : View) (eq : Nat → Nat → Bool) :
+    implImageEq m a b eq = true ↔ (a.w = b.w ∧ a.h = b.h) ∧ ∀ x y, x < b.w → y < b.h → eq (m.get (a.addr x y)) (m.get (b.addr x y)) = true := by
+  unfold implImageEq
+  by_cases h : a.w = b.w ∧ a.h = b.h
+  · simp only [h, and_self, if_true, true_and]; exact C04_equal_iff m a b eq h.1 h.2
+  · simp [h]
+
 /-! ### transform_pixels -/
 
 theorem C04_transform_order (s d : View) (hw : s.w = d.w) : rowPairs s d = specCopyPairs s d := by
